@@ -5,11 +5,9 @@ from props import gen_props
 
 def run(ctx):
     from props import gen_unbounded
-    gen_unbounded.run_reroute(ctx, ('reroute_in_events', 'reroute_out_events'))   # unbounded part: dispatcher handlers
-    gen_unbounded.run_portitf(ctx)     # any exposed port: strict-port type of the accessor follows the semantics
-    ctx.interp.model_strings_break_free = True
-    only = os.environ.get('PYVC_SHAPES')
-    gen_props.run_property(ctx, 'C02', only.split(',') if only else None)
+    # the composition on the shape corpus, then the unbounded function contracts (DESIGN.md 8.6)
+    gen_unbounded.run_with_composition(ctx, 'C02', [('reroute', gen_unbounded.run_reroute, ('reroute_in_events', 'reroute_out_events')),
+                                                      ('portitf', gen_unbounded.run_portitf)])
 
 
 def make_replay(ctx, o):
